@@ -177,9 +177,19 @@ def main(ck):
     ck.assumptions += [
         "etcd/raft is trusted: leader completeness, log matching, quorum commit and state-machine safety are Section "
         "hypotheses of every trace theorem (premises, not axioms); Example raft_hypotheses_satisfiable instantiates them",
-        "timing (WaitCommitTimeout, election timeouts) and real network behaviour are outside the model; the forced "
-        "truncation branches (clear-entryLog-tolerate-time, clear-entryLog-tolerate-size) are modelled (TruncForce, TruncLocal, "
-        "RSnapshot): leader_keeps_what_members_lack holds under wf_cfg's trunc_all, today's branches are refuted",
+        "timing (WaitCommitTimeout, election timeouts) and real network behaviour are outside the model, except the "
+        "tolerance timer of the truncation decision, which is state of the decision model (Trunc.v: rounds carry the wall "
+        "clock, which is only assumed not to go back); the forced truncation branches are modelled (TruncForce, TruncLocal, "
+        "RSnapshot): leader_keeps_what_members_lack holds under wf_cfg's trunc_all, catch_up_from_log_guaranteed under "
+        "'every truncation index lies inside what every member holds of the committed sequence' (sound), today's forced "
+        "branches are refuted",
+        "catch_up_from_log_guaranteed has a fifth raft hypothesis H_keep (replication never removes a committed entry "
+        "from a follower's log) and the trace hypothesis sound_run: for the healthy branch it asks that the minimum "
+        "Progress.Match over ALL members is a lower bound of the committed prefix every member durably holds (true in "
+        "etcd/raft once the leader has committed an entry of its term); raft snapshots go to members only",
+        "decision model <-> group machine: DHealthy/DForce of Trunc.decide are the TruncPropose/TruncForce events of "
+        "Model.step (correspondence by construction of the harness, not a Coq theorem); Trunc.v uses the file ids SlotGe "
+        "reports relative to the current log, Model.trunc_idx absolute file numbers (same deletions, see NOTES.md)",
         "the local apply of a committed entry succeeds in the trace model (storage faults are not in the property's "
         "fault space); the ack rule under apply failure is modelled and tied separately (commit_result_*)",
         "shard WAL enabled (product default): with wal-enabled=false the snapshot index is persisted before the data files "
@@ -191,7 +201,7 @@ def main(ck):
                               "Print Assumptions: closed under the global context (no axioms)",
                               "Go harness cmd/c05 (fake raft driver, recording storage), python driver props/C05/run.py"]
     ck.coq_audit(["C05"])
-    ok = ck.coq_build(["C05/Final.vo", "C05/Corr.vo"])
+    ok = ck.coq_build(["C05/Final.vo", "C05/TruncProofs.vo", "C05/Catchup.vo", "C05/Corr.vo"])
     if ok:
         ck.coq_props(["C05/Props.v", "C05/Refuted.v"])
     ck.log("coq done")
